@@ -1,8 +1,10 @@
 package main
 
 import (
+	"fmt"
 	"strconv"
 	"strings"
+	"unicode"
 	"unicode/utf8"
 
 	"github.com/grindlemire/go-lucene/pkg/lucene/expr"
@@ -554,6 +556,195 @@ func genRoundTrips(rng *gen.Rng, trees, seqs int, emit func(Case)) {
 	}
 }
 
+// specFromProbes: every spec probe must have answered 1.
+func specFromProbes(prefix string) func(c *Case, ps []*Probe) []string {
+	return func(c *Case, ps []*Probe) []string {
+		var out []string
+		for _, p := range ps {
+			if p.Op == "spec" && p.Model["OK"] != "1" {
+				out = append(out, prefix+strings.TrimPrefix(p.Model["OK"], "0:"))
+			}
+		}
+		return out
+	}
+}
+
+// specC03: ToPostgres must succeed on the filterable fragment, and the SQL must mean what the query means.
+func specC03(c *Case, ps []*Probe) []string {
+	if c.Kind != "sem" {
+		return nil
+	}
+	if !strings.HasPrefix(ps[0].Impl["PG"], "ok:") {
+		return []string{"ToPostgres does not succeed on a query of the filterable fragment: " + ps[0].Impl["PG"]}
+	}
+	return specFromProbes("the inline SQL does not select the rows the query means: ")(c, ps)
+}
+
+// specC04: whenever ToPostgres succeeds ToParameterizedPostgres succeeds, and the two agree.
+func specC04(c *Case, ps []*Probe) []string {
+	var out []string
+	if c.Kind == "par" {
+		if strings.HasPrefix(ps[0].Impl["PG"], "ok:") && !strings.HasPrefix(ps[0].Impl["PP"], "ok:") {
+			out = append(out, "ToPostgres succeeds but ToParameterizedPostgres does not: "+ps[0].Impl["PP"])
+		}
+		out = append(out, specFromProbes("")(c, ps)...)
+	}
+	if c.Kind == "pair" && c.Rel == "samesql" && len(ps) == 2 {
+		a, b := ps[0].Impl["PP"], ps[1].Impl["PP"]
+		if strings.HasPrefix(a, "ok:") && strings.HasPrefix(b, "ok:") {
+			sa, _ := splitPP(a)
+			sb, _ := splitPP(b)
+			if sa != sb {
+				out = append(out, "replacing values by others of the same kind changed the parameterized SQL text")
+			}
+		} else if outcomeKind(a) != outcomeKind(b) {
+			out = append(out, "replacing values by others of the same kind changed whether the query renders")
+		}
+	}
+	return out
+}
+
+// sameKindValues replaces every value leaf of a filter tree by another of the same kind.
+func sameKindValues(rng *gen.Rng, t *gen.Ft) *gen.Ft {
+	if t == nil {
+		return nil
+	}
+	c := *t
+	swap := func(l gen.Leaf) gen.Leaf {
+		switch l.Kind {
+		case "int":
+			return gen.Pick(rng, []gen.Leaf{{Text: "11", Kind: "int", Int: 11}, {Text: "-8", Kind: "int", Int: -8}, {Text: "123456", Kind: "int", Int: 123456}})
+		case "float":
+			return gen.Pick(rng, []gen.Leaf{{Text: "3.25", Kind: "float", Flt: 3.25}, {Text: "-7.5", Kind: "float", Flt: -7.5}, {Text: "0.001", Kind: "float", Flt: 0.001}})
+		case "str":
+			if l.Str == "*" {
+				return l
+			}
+			return gen.Pick(rng, []gen.Leaf{{Text: "other", Kind: "str", Str: "other"}, {Text: `"two words"`, Kind: "str", Str: "two words"}, {Text: `"q'q"`, Kind: "str", Str: "q'q"}})
+		case "wild":
+			if l.Str == "*" {
+				return l // an unbounded end / the lone star are structure, not values
+			}
+			return gen.Pick(rng, []gen.Leaf{{Text: "zz*", Kind: "wild", Str: "zz*"}, {Text: "?x?", Kind: "wild", Str: "?x?"}})
+		}
+		return l
+	}
+	switch t.K {
+	case "leaf":
+		c.Leaf = swap(t.Leaf)
+	case "eq", "cmp":
+		c.V = swap(t.V)
+	case "range":
+		c.Lo, c.Hi = swap(t.Lo), swap(t.Hi)
+	}
+	c.L, c.R, c.E = sameKindValues(rng, t.L), sameKindValues(rng, t.R), sameKindValues(rng, t.E)
+	return &c
+}
+
+// genFilters: the filterable fragment with meaning trees (C03) / parameter comparison (C04).
+func genFilters(rng *gen.Rng, kind string, count int, emit func(Case)) {
+	for i := 0; i < count; i++ {
+		f := gen.RandomFilter(rng, 1+rng.Intn(3), rng.Chance(1, 4))
+		c := Case{Gen: "G2-filter", Kind: kind, S: gen.Spell(rng, f.T.Print(), rng.Intn(3)), Aux: gen.TagString(f.Tags), Idx: i}
+		if len(f.Tags) > 0 {
+			c.Gen = "G2-filter-odd"
+		}
+		if kind == "sem" {
+			c.Want = impl.CanonExpr(oracle.Meaning(f.T))
+		}
+		emit(c)
+	}
+}
+
+func escapeWord(w string) string {
+	var sb strings.Builder
+	first := true
+	for _, r := range w {
+		special := !(r == '_' || unicode.IsLetter(r) || unicode.IsDigit(r))
+		if first && r == '-' {
+			special = true
+		}
+		if special {
+			sb.WriteByte('\\')
+		}
+		sb.WriteRune(r)
+		first = false
+	}
+	out := sb.String()
+	switch strings.ToUpper(w) {
+	case "AND", "OR", "NOT", "TO":
+		out = "\\" + out
+	}
+	return out
+}
+
+var quoteAlphabet = []string{"a", "b", "Z", "0", "7", " ", "  ", "\t", "\n", "*", "?", "/", "\\", "'", "''", ":", "=", "(", ")", "[", "]", "{", "}", "+", "-", "~", "^",
+	"AND", "OR", "NOT", "TO", "and", "<", ">", ",", ";", "--", "/*", "*/", "$$", "%", "_", "|", ".", "é", "日本", "😀", "ſ", "\u00a0", "%!s(x)", "E'", "5", "-5", "1.5", "NaN", "null"}
+
+// genQuoted (C08): texts w without a double quote, written between double quotes as a field's value, as a bare
+// query with a default field, and (escaping clause) as a bare word with a backslash before each special character.
+func genQuoted(rng *gen.Rng, count int, emit func(Case)) {
+	for i := 0; i < count; i++ {
+		n := rng.Intn(6)
+		var sb strings.Builder
+		for k := 0; k < n; k++ {
+			sb.WriteString(gen.Pick(rng, quoteAlphabet))
+		}
+		if rng.Chance(1, 30) {
+			sb.WriteString(strings.Repeat(gen.Pick(rng, quoteAlphabet), 200))
+		}
+		w := sb.String()
+		f := gen.Pick(rng, []string{"f", "my_col", "a"})
+		switch rng.Intn(4) {
+		case 0, 1:
+			emit(Case{Gen: "G4-quoted-field", Kind: "quoted", S: f + `:"` + w + `"`, Aux: f, Want: w, Idx: i})
+		case 2:
+			emit(Case{Gen: "G4-quoted-default", Kind: "quoted", S: `"` + w + `"`, DF: f, Aux: f, Want: w, Idx: i})
+		default:
+			if w == "" {
+				continue
+			}
+			if _, err := strconv.ParseFloat(w, 64); err == nil {
+				continue // looks like a number
+			}
+			emit(Case{Gen: "G4-escaped", Kind: "quoted", S: f + ":" + escapeWord(w), Aux: f, Want: w, Rel: "escaped", Idx: i})
+		}
+	}
+}
+
+// specC08: the value arrives verbatim in the tree, in PostgreSQL's reading of the inline constant, in the parameters.
+func specC08(c *Case, ps []*Probe) []string {
+	if c.Kind != "quoted" {
+		return nil
+	}
+	w, f := c.Want, c.Aux
+	q := ps[0]
+	wantTree := fmt.Sprintf("ok:(E 3 (E 11 c:%s nil f:3ff0000000000000 i:1) (E 11 s:%s nil f:3ff0000000000000 i:1) f:3ff0000000000000 i:1)", impl.Hex(f), impl.Hex(w))
+	var out []string
+	if q.Impl["P"] != wantTree {
+		return []string{"the value does not arrive in the tree as one plain string equal to the text"}
+	}
+	if c.Rel == "escaped" {
+		return out
+	}
+	if !utf8.ValidString(w) || strings.ContainsRune(w, 0) {
+		return out
+	}
+	if !strings.HasPrefix(q.Impl["PG"], "ok:") {
+		out = append(out, "ToPostgres fails on a quoted value: "+q.Impl["PG"])
+	} else if len(ps) > 1 {
+		want := fmt.Sprintf("1:(= (col %s) (str %s))", impl.Hex(f), impl.Hex(w))
+		if ps[1].Model["OK"] != want {
+			out = append(out, "PostgreSQL does not decode the inline constant back to the text: "+ps[1].Model["OK"])
+		}
+	}
+	wantPP := "ok:" + impl.Hex(`"`+f+`" = ?`) + "|s:" + impl.Hex(w)
+	if q.Impl["PP"] != wantPP {
+		out = append(out, "the value does not travel verbatim as the one string parameter")
+	}
+	return out
+}
+
 var properties = map[string]*Property{}
 
 func init() {
@@ -613,6 +804,43 @@ func init() {
 			s := gen.ByteString(rng, 1+rng.Intn(10))
 			e(Case{Gen: "G3-bytes", Kind: "q", S: s, DF: gen.Pick(rng, gen.DefaultFields), Idx: i})
 		}
+	}})
+	add(&Property{ID: "C02", Fields: fields("P", "PG", "PP"), Spec: specFromProbes(""), Generate: func(cfg RunConfig, emit func(Case)) {
+		rng := gen.NewRng(cfg.Seed, 2)
+		conf := asKind("conf", emit)
+		genTrees(rng, tiered(cfg, 40000, 800000), 4, func(c Case) { c.Want = ""; c.DF = gen.Pick(rng, gen.DefaultFields); conf(c) })
+		for i := 0; i < tiered(cfg, 80000, 1500000); i++ {
+			conf(Case{Gen: "G4-fieldquery", Kind: "q", S: gen.FieldQuery(rng), DF: gen.Pick(rng, gen.DefaultFields), Idx: i})
+		}
+		genFilters(rng, "conf", tiered(cfg, 30000, 500000), emit)
+		genTokenSeqs(tiered(cfg, 3, 4), []string{"", "df"}, conf)
+		for i := 0; i < tiered(cfg, 20000, 400000); i++ {
+			s := gen.Mutate(rng, gen.FieldQuery(rng))
+			conf(Case{Gen: "G3-mutated", Kind: "q", S: s, DF: gen.Pick(rng, gen.DefaultFields), Idx: i})
+		}
+	}})
+	add(&Property{ID: "C03", Fields: fields("P", "PG"), Spec: specC03, Generate: func(cfg RunConfig, emit func(Case)) {
+		rng := gen.NewRng(cfg.Seed, 3)
+		genFilters(rng, "sem", tiered(cfg, 120000, 2000000), emit)
+	}})
+	add(&Property{ID: "C04", Fields: fields("P", "PG", "PP"), Spec: specC04, Generate: func(cfg RunConfig, emit func(Case)) {
+		rng := gen.NewRng(cfg.Seed, 4)
+		genFilters(rng, "par", tiered(cfg, 60000, 1000000), emit)
+		par := asKind("par", emit)
+		genTrees(rng, tiered(cfg, 40000, 800000), 4, func(c Case) { c.Want = ""; par(c) })
+		for i := 0; i < tiered(cfg, 40000, 800000); i++ {
+			par(Case{Gen: "G4-fieldquery", Kind: "q", S: gen.FieldQuery(rng), DF: gen.Pick(rng, gen.DefaultFields), Idx: i})
+		}
+		for i := 0; i < tiered(cfg, 30000, 500000); i++ {
+			f := gen.RandomFilter(rng, 1+rng.Intn(3), false)
+			g := sameKindValues(rng, f.T)
+			mode := rng.Intn(3)
+			emit(Case{Gen: "G2-samekind", Kind: "pair", Rel: "samesql", S: gen.Spell(rng, f.T.Print(), mode), S2: gen.Spell(rng, g.Print(), mode), Idx: i})
+		}
+	}})
+	add(&Property{ID: "C08", Fields: fields("P", "PG", "PP"), Spec: specC08, Generate: func(cfg RunConfig, emit func(Case)) {
+		rng := gen.NewRng(cfg.Seed, 8)
+		genQuoted(rng, tiered(cfg, 150000, 3000000), emit)
 	}})
 	add(&Property{ID: "C13", Fields: fields("U", "V", "S", "G", "J", "R", "RP"), Spec: specC13, Generate: func(cfg RunConfig, emit func(Case)) {
 		rng := gen.NewRng(cfg.Seed, 13)
